@@ -159,6 +159,9 @@ func init() {
 		// crash control
 		"verifCrashArm": func(fr *Frame, a []Value) Value {
 			fr.it.env.crashArm = a[0].(bool)
+			if fr.it.env.crashArm {
+				fr.it.env.crashed = false
+			}
 			return nil
 		},
 		"verifCrashable": func(fr *Frame, a []Value) (res Value) {
